@@ -254,7 +254,7 @@ class C13(core.PropBase):
         "integer strings given to from_list are converted with Python's int() by the harness before the model sees the list",
         "Python int()/str() on decimal digit strings are inverse and equal the decimal value (printing is compared at token level after the real lexer)",
         "classes \\s \\w \\d of the characters used are read from Python's re on every run (ascii_ok checked by the driver)",
-        "CPython 3.12 as installed; integers below 2^62 in magnitude (wire format of the driver)",
+        "CPython 3.12 as installed; integers of any size travel to the extracted model in binary (ocaml/conv.ml); only expressions whose values are ENUMERATED on both sides are kept small (digit budget of the generators)",
     ]
 
     # ------------------------------------------------------------ cases
